@@ -193,6 +193,76 @@ REGISTRY.add(Contract(
          "basename starts with it; AccessDenied/ZombieProcess from cmdline() are swallowed"))
 
 
+# --- psutil.Process.exe (front end): the cmdline()[0] fallback -----------------------------------------------------------
+
+def setup_exe_front(it, cfg):
+    import os as _os
+    o, inner = front_process(it, None, None)
+    native = it.fresh("native_exe", "String", "str")
+    it.assume(smt.Cmp(">", smt.Len(native), I(0)))
+    arg0 = it.fresh("arg0", "String", "str")
+    isabs, isfile, xok = it.fresh("arg0_isabs", "Bool"), it.fresh("arg0_isfile", "Bool"), it.fresh("arg0_executable", "Bool")
+    other_ok = it.fresh("arg0_access_other_mode", "Bool")
+    how, cl = cfg["native"], cfg["cmdline"]
+    if cfg.get("cached"):
+        o.attrs["_exe"] = it.fresh("cached_exe", "String", "str")
+
+    def p_exe(it2):
+        it2.ctx.log.append(("proc.exe",))
+        if how == "denied":
+            it2.raise_(PS_EXC["AccessDenied"][0], pid=o.attrs["_pid"])
+        return native if how == "path" else ""
+
+    def p_cmdline(it2):
+        it2.ctx.log.append(("proc.cmdline",))
+        if cl == "denied":
+            it2.raise_(PS_EXC["AccessDenied"][0], pid=o.attrs["_pid"])
+        if cl == "empty":
+            return []
+        return [arg0, it.fresh("arg1", "String", "str")]
+
+    def f_isabs(it2, p):
+        it2.ctx.oblige("pre@os.path.isabs:asked about cmdline()[0]", "pre", it2.as_bool(it2.lib.equal(it2, p, arg0)), where="exe()")
+        return isabs
+
+    def f_isfile(it2, p):
+        it2.ctx.oblige("pre@os.path.isfile:asked about cmdline()[0]", "pre", it2.as_bool(it2.lib.equal(it2, p, arg0)), where="exe()")
+        return isfile
+
+    def f_access(it2, p, mode):
+        it2.ctx.oblige("pre@os.access:asked about cmdline()[0]", "pre", it2.as_bool(it2.lib.equal(it2, p, arg0)), where="exe()")
+        return xok if mode == _os.X_OK else other_ok
+
+    inner.attrs["exe"] = EnvFunc("proc.exe", p_exe)
+    inner.attrs["cmdline"] = EnvFunc("proc.cmdline", p_cmdline)
+    it.env_over.update({"os.path.isabs": EnvFunc("isabs", f_isabs), "os.path.isfile": EnvFunc("isfile", f_isfile),
+                        "os.access": EnvFunc("access", f_access)})
+    good = And(isabs, isfile, xok)
+    return {"args": {"self": o}, "spec": {"native": native, "arg0": arg0, "good": good, "how": how, "cl": cl,
+                                          "cached": bool(cfg.get("cached")), "cv": o.attrs["_exe"]},
+            "values": [native, arg0, isabs, isfile, xok]}
+
+
+EXE_CFGS = [{"native": n, "cmdline": c} for n in ("path", "empty", "denied") for c in ("args", "empty", "denied")] + \
+           [{"native": "path", "cmdline": "args", "cached": True}]
+REGISTRY.add(Contract(
+    "C12", INIT, "Process.exe", name="__init__.Process.exe(fallback)", setup=setup_exe_front, env=ENV, configs=EXE_CFGS,
+    inline=["cmdline"],
+    ensures=[
+        "implies(cached, result == cv and len(log) == 0)",                               # cached answer: nothing is asked again
+        "implies(not cached and how == 'path', result == native and self._exe == native and log == [('proc.exe',)])",
+        # no native answer: cmdline()[0] only if it is an absolute path to an executable regular FILE
+        "implies(not cached and how != 'path' and cl == 'args' and good, result == arg0)",
+        "implies(not cached and how == 'empty' and not (cl == 'args' and good), result == '')",
+        "implies(not cached and how == 'empty', self._exe == result)",
+        "implies(how == 'denied', cl == 'args' and good)",                               # otherwise AccessDenied, below
+    ],
+    raises={"AccessDenied": ["how == 'denied'", "not (cl == 'args' and good)", "exc.pid == self._pid"]},
+    canaries=["result == 'zz'"], replay=None,
+    note="native answer wins and is cached; '' or AccessDenied from the platform layer falls back to cmdline()[0] only "
+         "when that is an absolute path to an executable regular file; otherwise '' resp. the original AccessDenied"))
+
+
 # --- parse_environ_block: bounded -----------------------------------------------------------------------
 PEB = Contract("C12", COMMON_PY, "parse_environ_block", env=ENV,
                ensures=["result == reference parse: entries up to the first empty entry, split at the first '=' "
